@@ -8,7 +8,7 @@ Open Scope Z_scope.
 Lemma done_aux_spec base bts ls : forall fs i k r,
   In (k, r) (done_aux i base bts ls fs) <->
   exists j f, k = (i + j)%nat /\ nth_error fs j = Some f /\ f_done f = false /\
-    r = RMeta (base + f_rel f) (if bts =? -1 then f_ts f else bts) (if bts =? -1 then 0 else 1) ls.
+    r = RMeta (if base <? 0 then -1 else base + f_rel f) (if bts =? -1 then f_ts f else bts) (if bts =? -1 then 0 else 1) ls.
 Proof.
   induction fs as [|f fs IH]; intros i k r; cbn [done_aux].
   - split; [intros []|]. intros (j & f & _ & H & _). destruct j; discriminate.
@@ -33,7 +33,7 @@ Qed.
 Theorem done_coordinates base bts ls fs k r :
   In (k, r) (done base bts ls fs) <->
   exists f, nth_error fs k = Some f /\ f_done f = false /\
-    r = RMeta (base + f_rel f) (if bts =? -1 then f_ts f else bts) (if bts =? -1 then 0 else 1) ls.
+    r = RMeta (if base <? 0 then -1 else base + f_rel f) (if bts =? -1 then f_ts f else bts) (if bts =? -1 then 0 else 1) ls.
 Proof.
   unfold done. rewrite done_aux_spec. split.
   - intros (j & f & -> & H). exists f. exact H.
